@@ -133,6 +133,50 @@ func harnessC16Sequences() {
 	vCover("seq-done")
 }
 
+//verif:entry property=C16 tier=both bounds="every sequence of S calls out of {RegisterUpcastFunc(f,t), ClearUpcastsForType(x), ClearUpcasts} through the public API from the empty registry where every name is an arbitrary non-empty SMT string (so names may contain each other, separators, prefixes of each other); S_quick=3, S_thorough=4" cover="symseq-done,symseq-rejected-cycle" S_quick=3 S_thorough=4
+func harnessC16SequencesSym() {
+	S := vParam("S", 3)
+	bus := New()
+	var edges []c16Edge
+	for s := 0; s < S; s++ {
+		k := 0
+		if s > 0 {
+			k = vPick(3)
+		}
+		switch k {
+		case 0:
+			f, t := vStr("from"), vStr("to")
+			vAssume(f != "" && t != "")
+			err := RegisterUpcastFunc(bus, f, t, c16Dummy)
+			want := f == t || c16Reaches(edges, t, f)
+			vAssert((err != nil) == want, "symseq-rejected-iff-cycle")
+			if err == nil {
+				edges = append(edges, c16Edge{f, t})
+			} else if f != t {
+				vCover("symseq-rejected-cycle")
+			}
+		case 1:
+			x := vStr("cleared")
+			bus.ClearUpcastsForType(x)
+			var keep []c16Edge
+			for _, e := range edges {
+				if e.f != x {
+					keep = append(keep, e)
+				}
+			}
+			edges = keep
+		case 2:
+			bus.ClearUpcasts()
+			edges = nil
+		}
+		vAssert(c16Count(bus.upcastRegistry) == len(edges), "symseq-registry-matches-model")
+	}
+	for _, e := range edges {
+		vAssert(!c16Reaches(edges, e.t, e.f), "symseq-acyclic")
+	}
+	vCover("symseq-done")
+}
+
 //verif:entry property=C16 tier=both bounds="arbitrary acyclic registry of ne<=E edges (E as above) whose raw upcasters each return an arbitrary type name (declared target, own source, any other); apply() on one event of arbitrary type must return within 20000 interpreted instructions" cover="applied" forbid=panic,deadlock,race,budget budget=20000 E_quick=2 E_thorough=3
 func harnessC16ApplyTerminates() {
 	E := vParam("E", 2)
